@@ -195,9 +195,25 @@ def pcr_cases(thorough, seed):
                            "src": [("S", "T", n)], "valid": True, "mn": mn}
 
 
+def numeric_pcr_cases(thorough):
+    from vlib.forms import POS, NEG, spellings
+    vals = list(POS) + list(NEG) + ([v + d for v in (127, 128, 255, 256, -128, -129) for d in (-2, -1, 1, 2)] if thorough else [])
+    for mn in ("LDA", "LEAX", "LDY", "STB"):
+        for ind in (False, True):
+            for v in vals:
+                for sc, sp in spellings(v, thorough):
+                    op = "[%s,PCR]" % sp if ind else "%s,PCR" % sp
+                    yield {"id": "pcrnum/%s/%s" % (mn, op), "lines": [" ORG $2000\n", "S %s %s\n" % (mn, op), " NOP\n"], "form": "pcr.numeric", "traits": {"ind": ind, "zone": "n/a"},
+                           "src": [("S", None, v)], "valid": True, "mn": mn}
+
+
 def gen_cases(tier, seed, shard, nshards):
     thorough = tier == "thorough"
     i = 0
+    for c in numeric_pcr_cases(thorough):
+        i += 1
+        if i % nshards == shard:
+            yield c
     for c in branch_cases(thorough):
         i += 1
         if i % nshards == shard:
@@ -256,8 +272,8 @@ def run_case(case, ctx):
     compared = 0
     for src, tgt, const in case["src"]:
         st = by_label.get(src) if isinstance(src, str) else o.stmts[src]
-        tg = by_label.get(tgt)
-        if st is None or tg is None:
+        tg = by_label.get(tgt) if tgt is not None else None
+        if st is None or (tg is None and tgt is not None):
             continue
         b = bytes(st["bytes"])
         try:
@@ -273,14 +289,21 @@ def run_case(case, ctx):
         else:
             ctx.violation("reach", form, "NOT-RELATIVE", dict(wit, bytes=b.hex(), decoded=repr(d)), traits)
             continue
-        want = (tg["addr"] + const) % 65536
-        got = (st["addr"] + len(b) + off) % 65536
+        if tgt is None:
+            # bare numeric n,PCR: the displacement itself is n
+            want = const % 65536
+            got = off % 65536
+            if d["mode"] != "idx":
+                got = None
+        else:
+            want = (tg["addr"] + const) % 65536
+            got = (st["addr"] + len(b) + off) % 65536
         compared += 1
         if got != want:
             ctx.outcome("wrong-displacement")
             t2 = dict(traits, width=width)
             ctx.violation("reach", form if form != "program" else "program." + d["mode"], "WRONG-TARGET",
-                          dict(wit, bytes=b.hex(), decoded=repr(d), stmt_addr=st["addr"], target=want, reached=got, delta=got - want), t2)
+                          dict(wit, bytes=b.hex(), decoded=repr(d), stmt_addr=st["addr"], target=want, reached=got), t2)
         else:
             ctx.cell("%s/w%d" % (form, width))
     if compared:
